@@ -196,7 +196,9 @@ RootFens == <<
   "8/6p1/7k/7P/7K/7P/8/6r1 b - - 0 1",           \* ...g5+ and hxg6 e.p. is the only reply
   "4k3/8/8/8/1pPp4/8/8/4K3 b - c3 0 1",          \* two capturers for one en-passant square
   "b7/8/8/3Pp3/8/6k1/4n3/7K w - e6 0 1",         \* stalemate: the only en-passant capturer is pinned
-  "k2b4/4p3/8/3P4/7K/8/8/8 b - - 0 1"            \* ...e5 uncovers a check: the en-passant capture does not answer it
+  "k2b4/4p3/8/3P4/7K/8/8/8 b - - 0 1",           \* ...e5 uncovers a check: the en-passant capture does not answer it
+  "7k/5K2/5N2/8/7p/7P/P7/8 w - - 0 1",           \* a4 stalemates: the only enemy pawn near a4 stands across the board edge
+  "6k1/8/8/8/8/8/r7/4K2R w K - 0 1"              \* castling out of a back-rank squeeze is one of very few moves
 >>
 RootSet ==
   LET idx  == IF Sub = 0 THEN 1..Len(RootFens) ELSE {((Sub - 1) % Len(RootFens)) + 1}
